@@ -285,3 +285,9 @@ _u['must_have'] = ['anynum.post']
 _u['bounds'] = {'keys': 'the 14 literal keys; the NUMBER their digits spell is an arbitrary unsigned long'}
 _u['assumptions'] = ['keys are drawn from a pool of 14 literals; _dbus_string_parse_uint may return any unsigned long for the digits']
 UNITS.append(_u)
+
+UNITS.append(dict(name='C07.is_primary_owner', props=['C07', 'C18'], kind='P', route='stub', bus=True, entry='harness',
+    tus=[dict(file='bus/signals.c', include_as='VERIF_TU')], harness='harness/c07_primary.c', timeout=300, expect_s=5, must_have=['owner.post'],
+    functions=[dict(name='connection_is_primary_owner', file='bus/signals.c', status='enforced', contract='TRUE iff the name is registered and the connection is its primary owner (queued waiters do not stand for the name)'),
+               dict(name='bus_registry_lookup, bus_service_get_primary_owners_connection, bus_service_owner_in_queue', file='bus/services.c', status='stub', note='abstract owner state: exists / primary / queued')],
+    assumptions=['the primary owner is the head of the owner queue (C04)']))
